@@ -79,7 +79,8 @@ S1 == Leaves \o Concat(MapS(Wraps, Leaves))
 S2 == Concat(MapS(LAMBDA l : MapS(LAMBDA w : StructN(<<MA(w), MB(ByteN)>>), Wraps(l)), LeavesSmall))
       \o Concat(MapS(LAMBDA l : MapS(LAMBDA w : StructN(<<MA(ByteN), MB(w)>>), Wraps(l)), LeavesSmall))
 \* two-level nests
-S3 == Concat(MapS(LAMBDA l : Concat(MapS(Wraps, Wraps(l))), LeavesSmall))
+LeavesNest == IF Thorough THEN LeavesSmall ELSE <<ByteN, GreedyBytesN>>
+S3 == Concat(MapS(LAMBDA l : Concat(MapS(Wraps, Wraps(l))), LeavesNest))
 \* members that depend on the context
 S4 == << StructN(<<MA(ByteN), MB(BytesN(ThisA))>>),
          StructN(<<MA(ByteN), MB(ArrayN(ThisA, ByteN))>>),
@@ -104,7 +105,7 @@ S4 == << StructN(<<MA(ByteN), MB(BytesN(ThisA))>>),
          StructN(<<MA(ByteN), MB(PrefixedN(ByteN, RawCopyN(GreedyBytesN))), MC([k |-> "Tell"])>>),
          StructN(<<MA(ByteN), MB(PaddedN(CInt(2), StopIfN(CBool(TRUE))))>>) >>
 
-ProgsAll == S1 \o S4 \o S2 \o (IF Thorough THEN S3 ELSE <<>>)
+ProgsAll == S1 \o S4 \o S2 \o S3
 \* the part of the universe a check is about
 FocusSet == IF "MC_FOCUS" \in DOMAIN IOEnv THEN IOEnv.MC_FOCUS ELSE "all"
 FocusKinds ==
